@@ -530,7 +530,9 @@ PPL::Grid::relation_with(const Grid_Generator& g) const {
   }
 
   // The empty grid cannot subsume a generator.
-  if (marked_empty()) {
+  // Note: the congruences may be unsatisfiable even though the grid
+  // is not marked empty.
+  if (is_empty()) {
     return Poly_Gen_Relation::nothing();
   }
 
@@ -560,7 +562,9 @@ PPL::Grid::relation_with(const Generator& g) const {
   }
 
   // The empty grid cannot subsume a generator.
-  if (marked_empty()) {
+  // Note: the congruences may be unsatisfiable even though the grid
+  // is not marked empty.
+  if (is_empty()) {
     return Poly_Gen_Relation::nothing();
   }
 
